@@ -127,3 +127,27 @@ TEXTS = {
               "Element type int; Discard(n<0) is outside the domain."),
   rule=None),
 }
+
+# ---- additions made while the checks were being strengthened against independently written changes (DESIGN.md 9.5)
+_ADD = {
+ "C01": " Added later: vectored WriteBuffers calls, tuning calls in mid-connection, paced writers through outages of 4-70 s, any library clock offset (uptime, wrap points), and E7 (real loopback UDP).",
+ "C02": " Added later: tuning calls in mid-connection, transient socket send errors (TestC02Session), flush intervals up to 5 s, any clock offset; a literal regression case for the repaired snd_una wedge.",
+ "C03": " Added later: the receiving application enlarges its window at drawn moments, also in mid-stall.",
+ "C04": " Added later: timeouts are recognised by the model itself (a retransmitted segment whose fast-ack counter was just set to 0), not from the library's LostSegs counter; TestC04SessionWindow applies the sender-side window rule to real sessions with FEC, loss and stalled readers (the peer's window is read from regular data packets as they arrive; FEC-recovered packets must not count as news); a literal regression case for the repaired ack-only admission.",
+ "C05": " Added later: a quarter of the hostile datagrams go through the simulated socket and the library's own receive loops, up to 65 000 bytes long; a literal regression case for the repaired oversize PUSH.",
+ "C06": " Added later: a third of the corrupted / short / empty datagrams go through the simulated socket and the library's own receive loops.",
+ "C09": " Added later: a third of the session cases transmit through the sendmmsg batch path (verif hook) with drawn short-write counts; the entropy test crosses the 2^24-draw re-seeding.",
+ "C10": " Added later: the listed parity finding is excluded by the id of the straddling FEC group only; every parity packet must be exactly as long as the longest data packet of its group; idle gaps beyond the encoder's 500 ms limit with MTU calls placed inside them; OOB packets at and beyond the size limit; readers stalled at both ends (probe and announcement in one flush); a literal regression case for the repaired raw SetMtu.",
+ "C11": " Added later: conversation ids from the whole 32-bit space (0 and 0xffffffff favoured, reconnect to id 0), any clock offset, an immediate oracle (once the listener has been handed the first data packet of a peer's conversation its table holds that conversation for that address), and E7 (datagrams from a third real socket).",
+ "C13": " Added later: in a third of the session cases X is a session handed out by a listener, which may be closed while the session goes on; literal regression cases for the two repaired wake-up defects.",
+ "C14": " Added later: transport faults during the calls and during Close, a third of the programs over real loopback UDP sockets, Close while other goroutines call methods of the same session, all listener methods, programs that start just before the entropy source re-seeds.",
+ "C15": " Added later: E7 (real sockets owned by the library: descriptors and goroutines back to the baseline after Close in four orders, also in mid-transfer and under a storm of first packets from new peers), OOB calls on closed sessions under the pool sanitizer, a literal regression case for sessions nobody accepted.",
+ "C16": " Added later: TestC16SessionLazyDecoder - FEC at the sender only, through real sessions: the receiving session must keep its lazily created decoder, adopt the ratio within the bound and recover losses afterwards.",
+ "C17": " Added later: tasks that submit tasks; 'never' deadlines a century away, past the year 2262 and at the largest time value.",
+ "C18": " Added later: clock offsets at the wrap points in half of the clean-path runs; NoDelay called again in mid-connection (the floor in force is that of the last call from the next RTT sample on).",
+ "C19": " Added later: TestC19ClosedSession (OOB calls on closed sessions under the pool sanitizer), TestC19OneSidedFEC (FEC at one end only: the other end keeps refusing the OOB calls for the whole connection), TestC19ForeignConvOOB with any conversation id.",
+ "C20": " Added later: TestC20GrowEveryOffset - a full ring is grown twice from EVERY head offset at 32 sizes across the three growth regimes (37 544 layouts), compared in full with the model after each growth and drained.",
+}
+for _k, _v in _ADD.items():
+    if _k in TEXTS and TEXTS[_k].get("level_text"):
+        TEXTS[_k]["level_text"] = TEXTS[_k]["level_text"] + _v
